@@ -16,6 +16,18 @@ def shape(n: Node):
     return (n.type, n.obfuscation, n.start, n.end, tuple(shape(c) for c in n.children))
 
 
+def shape_flat(n: Node):
+    """Same information as shape(), as a flat pre-order tuple built without recursion (for trees deeper than the recursion limit)."""
+    out = []
+    stack = [(n, 0)]
+    while stack:
+        x, d = stack.pop()
+        out.append((d, x.type, x.obfuscation, x.start, x.end))
+        for c in reversed(x.children):
+            stack.append((c, d + 1))
+    return tuple(out)
+
+
 def walk(n: Node, limit: int = 200000):
     """Identity-based pre-order walk (excluding n) that cannot loop: stops at `limit` nodes."""
     out = []
